@@ -399,6 +399,8 @@ pub struct Sim {
     faults_active: bool,
     next_int: i64,
     readline_n: u64,
+    /// model of the run queue as a rotating list of thread ordinals (probe only, see `turn_probe`)
+    turn_queue: VecDeque<u32>,
     /// global indices of the steps that executed a resumable string instruction (capped)
     pub string_steps: Vec<u64>,
     record_string_steps: bool,
@@ -524,6 +526,7 @@ impl Sim {
             faults_active: true,
             next_int: next_int_base,
             readline_n: 0,
+            turn_queue: VecDeque::new(),
             string_steps: vec![],
             record_string_steps: false,
         }
@@ -626,6 +629,36 @@ impl Sim {
             i += ch_len;
         }
         out
+    }
+
+    /// Probe, not an oracle: does the order in which tasks get their turns follow a rotating
+    /// queue in which parked and failed tasks keep their place? No property demands that policy
+    /// (any fair scheduler satisfies C09 / C10), so a deviation is only counted.
+    fn turn_probe(&mut self, t: u32) {
+        let n = self.turn_queue.len();
+        let mut deviated = false;
+        let mut found = false;
+        for _ in 0..n {
+            let Some(f) = self.turn_queue.pop_front() else { break };
+            self.turn_queue.push_back(f);
+            if f == t {
+                found = true;
+                break;
+            }
+            let runnable = self
+                .threads
+                .values()
+                .find(|m| m.ordinal == f)
+                .is_some_and(|m| !m.parked && !m.finished && !m.failed && !m.dropped);
+            if runnable {
+                deviated = true;
+            }
+        }
+        if !found {
+            self.turn_queue.push_back(t);
+        } else if deviated {
+            self.count("probe_turn_order_deviates_from_rotating_queue");
+        }
     }
 
     fn live_threads(&self) -> u64 {
@@ -960,6 +993,7 @@ impl Sim {
                 string_op_in_flight,
             } => {
                 let t = self.ordinal(*thread, *is_main);
+                self.turn_probe(t);
                 if self.record_string_steps && string_instr(instr) && self.string_steps.len() < 50_000 {
                     self.string_steps.push(self.step_seq);
                 }
@@ -1010,6 +1044,7 @@ impl Sim {
                     if let Some(m) = self.threads.get_mut(thread) {
                         m.finished = true;
                     }
+                    self.turn_queue.retain(|x| *x != t);
                 }
                 // progress invariant: every live, unparked task keeps getting turns
                 let live = self.live_threads();
@@ -1046,6 +1081,7 @@ impl Sim {
                 let c = self.ordinal(*child, false);
                 self.hash.u64(2 | (p as u64) << 8 | (c as u64) << 24 | (*ncaptures as u64) << 40);
                 self.remember(c, 0, None, 0, "spawned");
+                self.turn_queue.push_back(c);
                 self.count("ev_spawn");
             }
             Event::ThreadFailed {
